@@ -229,6 +229,17 @@ def check(ctx, rep):
                 lk = [l for l in notif[0].locks] if notif else []
                 same = ok and bool(lk) and all(l in flags[0][2].locks for l in lk) and all(l in stores[0].locks for l in lk)
                 rep.ob("R-NOTIFY", "%s.cancel: first successful cancel notifies once, flag test-and-set under one lock" % N, ok and same, "the notified flag must be tested, set and the notification issued under one lock, exactly once", where_of(cm), trace_of(p))
+        # the notified flag starts out false
+        o_, oinit = out.lookup("__init__")
+        flagf = set(t[2] for p_ in ps for t, v_, e_ in q.atoms(p_) if q.self_field(t))
+        if oinit is not None and flagf:
+            ips, iit = ctx.paths(oinit, out, depth=0)
+            for ip in ips:
+                if ip.status == "raise":
+                    continue
+                for f_ in sorted(flagf):
+                    iv = ip.heap.get(("attr", SELF, f_))
+                    rep.ob("R-NOTIFY", "%s: the notified flag starts out false" % N, iv == ("const", False), "%s is initialised to %s: the first successful cancel() would take the 'already notified' branch and waiters are never released" % (f_, fmt(iv) if iv is not None else "nothing"), where_of(oinit))
         rep.ob("R-NOTIFY", "%s.cancel: failed / first / repeated cancel are all handled" % N, kinds >= {"failed", "first", "again"}, "cases found: %s (a successful stdlib cancel that was already notified must be told apart from the first one)" % sorted(kinds), where_of(cm))
 
     # allocation sites: plain stdlib futures must be terminal before they escape; pending outputs must be OutputFuture/_Future
